@@ -83,7 +83,17 @@ def extract(repo):
     assign = re.findall(r'SS\{"((?:[^"\\]|\\.)*)"\}', m.group(1))
     eq_shape = (bool(re.search(r"if\s*\(\s*Operator\s*\(\s*\)\s*\)", ebody)) and bool(re.search(r"if\s*\(\s*!\s*Equation\s*\(\s*\)\s*\)", ebody))
                 and "build_match<eval::Equation_AST_Node<Tracer>>(prev_stack_top, sym.c_str())" in re.sub(r"\s+", " ", ebody))
-    return {"assign": assign, "eq_shape": eq_shape, "levels": [levels[i] for i in range(len(levels))], "kinds": kinds, "prefix": prefix, "prefix_reenters_last": prefix_reenters_last,
+    # --- Symbol(): the symbol alphabet and the look-ahead rule
+    sym_alpha = sorted(set(ord(c) for c in re.findall(r"set_alphabet\(\s*alphabet\s*,\s*detail::symbol_alphabet\s*,\s*'(.)'\s*\)", src)))
+    if not sym_alpha:
+        raise ValueError("symbol alphabet not found")
+    sbody = re.sub(r"\s+", " ", fn_body(src, r"\bbool\s+Symbol\s*\(\s*const\s+utility::Static_String\s*&\s*t_s\s*,\s*const\s+bool\s+t_disallow_prevention\s*=\s*false\s*\)\s*"))
+    want = ("Depth_Counter dc{this}; SkipWS(); const auto start = m_position; bool retval = Symbol_(t_s); "
+            "if (retval && m_position.has_more() && (t_disallow_prevention == false) && char_in_alphabet(*m_position, detail::symbol_alphabet)) { "
+            "if (*m_position != '=' && is_operator(Position::str(start, m_position)) && !is_operator(Position::str(start, m_position + 1))) { } "
+            "else { m_position = start; retval = false; } } return retval;")
+    sym_shape = sbody.strip() == want
+    return {"sym_alpha": sym_alpha, "sym_shape": sym_shape, "assign": assign, "eq_shape": eq_shape, "levels": [levels[i] for i in range(len(levels))], "kinds": kinds, "prefix": prefix, "prefix_reenters_last": prefix_reenters_last,
             "calls": calls, "pre_switch": pre_switch, "loop": loop, "value_at_prefix": value_at_prefix, "built": built,
             "tern_calls": tern_calls, "tern_colon": tern_colon}
 
@@ -119,6 +129,10 @@ def to_lean(x):
     L.append("def precAssignSymbols : List Nat := [" + ", ".join(str(sym_id(s)) for s in x["assign"]) + "]")
     L.append("/-- Equation(): `if (Operator())`, then for a matching symbol `Equation()` again (or throw) and an Equation node over everything matched -/")
     L.append("def precEquationRecursesIntoEquation : Bool := %s" % lean_bool(x["eq_shape"]))
+    L.append("/-- detail::symbol_alphabet: %s -/" % " ".join(chr(c) for c in x["sym_alpha"]))
+    L.append("def precSymbolAlphabet : List Nat := [" + ", ".join(str(c) for c in x["sym_alpha"]) + "]")
+    L.append("/-- Symbol(t_s, t_disallow_prevention) is, token for token, the function Model/Sym.lean transcribes -/")
+    L.append("def precSymbolShape : Bool := %s" % lean_bool(x["sym_shape"]))
     L.append("end ChaiVerif.Gen")
     return "\n".join(L) + "\n"
 
